@@ -91,6 +91,11 @@ func marshal(val cty.Value, ty cty.Type, path cty.Path, enc *msgpack.Encoder) er
 					err = enc.EncodeInt(iv)
 				} else if fv, acc := bf.Float64(); acc == big.Exact && !bf.IsInt() {
 					err = enc.EncodeFloat64(fv)
+				} else if bf.IsInt() {
+					// Whole numbers compare exactly, so they must be written
+					// exactly rather than as the shortest text that identifies
+					// them at their own precision.
+					err = enc.EncodeString(bf.Text('f', 0))
 				} else {
 					err = enc.EncodeString(bf.Text('f', -1))
 				}
